@@ -152,6 +152,12 @@ Section Facts4.
       assert (H0 : lcur 0 = c0) by (unfold lcur; destruct (errors o); reflexivity).
       rewrite H0 in H. exact H.
     Qed.
+    Lemma lcur_0_S j :
+      lcur 0 = c0 /\
+      lcur (S j) =
+      if (match errors o with EReplace => true | _ => false end) && all_finite (lcur j) && negb (all_finite (chkseq (S j)))
+      then replace_nonfinite (chkseq (S j)) else chkseq (S j).
+    Proof. split; [unfold lcur; destruct (errors o); reflexivity|apply lcur_S]. Qed.
   End OnePeriod.
 
   (* solve_t, completely: guards passed and pre-hook returned => the bookkeeping of `finish` applied to the loop's outcome,
